@@ -151,6 +151,7 @@ type zzMPool struct {
 	host     types.Host
 	senders  []*zzUpSender
 	onUpHeaders func() // handed to every upstream sender the pool creates
+	bodyMayFail bool   // the write of a request body may fail on any attempt
 }
 
 // zzUpSender records what the proxy sends upstream.
@@ -160,6 +161,7 @@ type zzUpSender struct {
 	headers   int
 	ended     bool   // the whole request was handed over (end of stream seen)
 	onHeaders func() // environment hook: something happens while the request headers are being written upstream
+	failBody  bool   // the write of the request body (or trailers) fails: the stream layer resets the stream inside the call
 }
 
 func (s *zzUpSender) GetStream() types.Stream { return s.st }
@@ -178,11 +180,18 @@ func (s *zzUpSender) AppendHeaders(ctx context.Context, h api.HeaderMap, end boo
 func (s *zzUpSender) AppendData(ctx context.Context, b buffer.IoBuffer, end bool) error {
 	if end {
 		s.ended = true
+		if s.failBody {
+			// what xStream.endStream does when the connection refuses the write
+			s.st.ResetStream(types.StreamConnectionFailed)
+		}
 	}
 	return nil
 }
 func (s *zzUpSender) AppendTrailers(context.Context, api.HeaderMap) error {
 	s.ended = true
+	if s.failBody {
+		s.st.ResetStream(types.StreamConnectionFailed)
+	}
 	return nil
 }
 
@@ -198,6 +207,9 @@ func (p *zzMPool) NewStream(context.Context, types.StreamReceiveListener) (types
 		return p.host, nil, types.Overflow
 	}
 	up := &zzUpSender{st: &zzMStream{}, onHeaders: p.onUpHeaders}
+	if p.bodyMayFail {
+		up.failBody = verif.Choose("body_write_fails", 2) == 1
+	}
 	p.senders = append(p.senders, up)
 	return p.host, up, ""
 }
@@ -1202,5 +1214,64 @@ func VerifC03_Oneway() {
 		verif.Cover("sent")
 	}
 	verif.Assert(verif.NumTimers() == 0, "engine: a timer is still armed after a one-way request ended")
+	verif.Cover("end")
+}
+
+
+// VerifC03_BodyWriteFails: a two-way request with a body (optionally trailers)
+// on a route with retry budget 0..2; every attempt is accepted by the pool,
+// fails to connect, or is accepted and then the write of the body fails (the
+// stream layer resets the upstream stream inside the call, as xprotocol's
+// endStream does on a closed connection); an attempt whose write succeeds is
+// answered 200. A failed write is an upstream connection failure like any
+// other: it is retried while budget is left, otherwise the client gets an
+// error reply. In every case the client gets exactly one reply, the request
+// is cleaned up, and its gauge is released once.
+func VerifC03_BodyWriteFails() {
+	verif.Switches(0)
+	budget := uint32(verif.Choose("num_retries", 3))
+	ds, sender, pool, p, ctx := zzMachine(budget, verif.Choose("retry_on", 2) == 1)
+	zzTryTimeout, zzMaxRetries = 0, 0
+	pool.scripted = true
+	pool.bodyMayFail = true
+	active0 := p.stats.DownstreamRequestActive.Count()
+	body := buffer.NewIoBufferBytes([]byte("b"))
+	var trailers api.HeaderMap
+	if verif.Choose("with_trailers", 2) == 1 {
+		trailers = protocol.CommonHeader{"t": "v"}
+	}
+	done := false
+	go func() {
+		ds.OnReceive(ctx, protocol.CommonHeader{}, body, trailers)
+		done = true
+	}()
+	verif.Settle()
+	failedWrites := 0
+	for _, up := range pool.senders {
+		if up.failBody && up.ended {
+			failedWrites++
+		}
+	}
+	for k := 0; k < 4 && !done; k++ {
+		// the worker waits: the last attempt was written; the upstream answers it
+		if ur := ds.upstreamRequest; ur != nil && ur.requestSender != nil {
+			ur.OnReceive(ctx, protocol.CommonHeader{"status": "200"}, nil, nil)
+		}
+		verif.Settle()
+	}
+	verif.Assert(done, "the worker is still waiting although every attempt failed or was answered")
+	if !done {
+		return
+	}
+	verif.Assert(sender.headers == 1, "the client must get exactly one reply (an attempt whose body write failed is an upstream failure: retried or answered with an error, never dropped)")
+	verif.Assert(p.stats.DownstreamRequestActive.Count() == active0-1, "DownstreamRequestActive not released exactly once")
+	b := int(budget)
+	if b < 3 {
+		b = 3 // connection failures are retried at least three times
+	}
+	verif.Assert(pool.calls <= 1+b, "more upstream attempts than one plus the retry budget")
+	if failedWrites > 0 {
+		verif.Cover("a body write failed")
+	}
 	verif.Cover("end")
 }
